@@ -42,9 +42,11 @@ EXPECTED_PROBES = ["probe_get_ok", "probe_post_ok", "probe_unknown_path", "probe
                    "probe_ws_handler_amends_its_message", "probe_ws_same_text_repeated", "probe_post_chunked", "probe_post_multipart",
                    "probe_klongloop_evaluation_beside_requests", "probe_ws_binary_frame",
                    "probe_handler_rebound_to_non_function", "probe_request_while_handler_is_not_a_function", "probe_post_with_query_string",
-                   "probe_ws_send_mutated_dict", "probe_ws_two_connections"]
+                   "probe_ws_send_mutated_dict", "probe_ws_two_connections",
+                   "probe_second_web_server", "probe_request_to_second_web_server", "probe_other_web_server_after_webc", "probe_web_bind_address_text"]
 WALL_CAP = {"quick": 400, "thorough": 3600}
 PORT = 8080
+PORT2 = 8081
 WSPORT = 9000
 
 
@@ -68,7 +70,18 @@ BODIES = [('"one"', False), ("42", False), ('x?"a"', False), ("[1 2 3]", False),
           ("(:{[1 2]})@7", True)]      # the last one fails with a KeyError (index of a missing dictionary key)
 
 
+def _fresh_modules():
+    """Module-level state a change may introduce (a registry of servers or connections) starts every run from a fresh
+    process's state: otherwise a run depends on what earlier runs of the same worker left behind and does not replay."""
+    import sys
+    for name in [n for n in sys.modules if n == "klongpy.web" or n.startswith("klongpy.web.") or n == "klongpy.ws" or n.startswith("klongpy.ws.")]:
+        del sys.modules[name]
+    import klongpy.web.sys_fn_web  # noqa
+    import klongpy.ws.sys_fn_ws  # noqa
+
+
 def scenario(ch, cfg):
+    _fresh_modules()
     if cfg["mode"] == "ws":
         return scenario_ws(ch, cfg)
     from klongpy import KlongInterpreter
@@ -126,6 +139,23 @@ def scenario(ch, cfg):
             name = f"h{hid}"
             defs[name] = {"id": hid, "body": body, "raises": raises, "version": 0}
             routes[method][path] = name
+    # a second web server in the same process (another port, a table of its own that prefers the SAME paths with other
+    # handlers): every request reaches the handler of the table of the port it was sent to; .webc of one leaves the other
+    two = ch.draw(3, "second-server") == 0
+    routes2 = {"GET": {}, "POST": {}}
+    if two:
+        stats["probe_second_web_server"] += 1
+        for method in ("GET", "POST"):
+            avail = list(routes[method]) + [p_ for p_ in pool if p_ not in routes[method]]
+            for _ in range(1 + ch.draw(2, "n2")):
+                path = avail.pop(0 if ch.draw(3, "samepath") else ch.draw(len(avail), "path2"))
+                hid += 1
+                body, raises = ch.pick(BODIES, "body2")
+                name = f"h{hid}"
+                defs[name] = {"id": hid, "body": body, "raises": raises, "version": 0}
+                routes2[method][path] = name
+    tables = {PORT: routes, PORT2: routes2}
+    cur = {"port": PORT, "routes": routes}
 
     def hsrc(name):
         d = defs[name]
@@ -136,6 +166,12 @@ def scenario(ch, cfg):
         boot_src.append(f'get,"{path}",{name}')
     for path, name in routes["POST"].items():
         boot_src.append(f'post,"{path}",{name}')
+    if two:
+        boot_src += ["get2:::{}", "post2:::{}"]
+        for path, name in routes2["GET"].items():
+            boot_src.append(f'get2,"{path}",{name}')
+        for path, name in routes2["POST"].items():
+            boot_src.append(f'post2,"{path}",{name}')
     for line in boot_src[:len(defs)]:
         twin(line)
     for n in defs:
@@ -145,9 +181,16 @@ def scenario(ch, cfg):
     def boot():
         for line in boot_src:
             srv.klong(line)
-        srv.klong(f"wh::.web({PORT};get;post)")
+        # the address is a port or a "bind:port" text
+        if ch.draw(3, "bind-form") == 0:
+            stats["probe_web_bind_address_text"] += 1
+            srv.klong(f'wh::.web("127.0.0.1:{PORT}";get;post)')
+        else:
+            srv.klong(f"wh::.web({PORT};get;post)")
+        if two:
+            srv.klong(f"wh2::.web({PORT2};get2;post2)")
     box = srv.on_klongloop(boot)
-    w.run(until=lambda: PORT in net.listeners or "exc" in box, max_steps=8000)
+    w.run(until=lambda: (PORT in net.listeners and (not two or PORT2 in net.listeners)) or "exc" in box, max_steps=12000)
     if "exc" in box:
         raise HarnessError(f"boot failed: {box['exc']!r}")
     if PORT not in net.listeners:
@@ -228,7 +271,7 @@ def scenario(ch, cfg):
 
     async def request(raw, conn=None, keep=False):
         if conn is None:
-            conn = await asyncio.open_connection("127.0.0.1", PORT)
+            conn = await asyncio.open_connection("127.0.0.1", cur["port"])
         r, wr = conn
         wr.write(raw)
         try:
@@ -240,7 +283,7 @@ def scenario(ch, cfg):
         return res, conn
 
     def pick_route(method=None, want_raises=None):
-        cands = [(m, p, n) for m in ("GET", "POST") for p, n in routes[m].items()
+        cands = [(m, p, n) for m in ("GET", "POST") for p, n in cur["routes"][m].items()
                  if (method is None or m == method) and (want_raises is None or defs[n]["raises"] == want_raises)]
         if not cands:
             return None
@@ -288,6 +331,12 @@ def scenario(ch, cfg):
         for si, kind in enumerate(steps):
             n0 = len(reclog)
             tag = f"step{si}:{kind}"
+            if two:
+                cur["port"] = PORT2 if ch.draw(2, "which-server") else PORT
+                cur["routes"] = tables[cur["port"]]
+                tag += f"@{cur['port']}"
+                if cur["port"] == PORT2:
+                    stats["probe_request_to_second_web_server"] += 1
             if kind == "good":
                 rt = pick_route(want_raises=False) or pick_route()
                 if rt is None:
@@ -316,7 +365,7 @@ def scenario(ch, cfg):
             elif kind == "unknown":
                 m = ch.pick(["GET", "POST"], "um")
                 p = ch.pick(["/nope", "/a/zz", "/ab/c", "/A", "/t", "/a/d", "/a/", "/p/"], "up")
-                if p in routes[m]:
+                if p in cur["routes"][m]:
                     continue
                 res, _ = await request(build(m, p, gen_params()))
                 stats["probe_unknown_path"] += 1
@@ -331,7 +380,7 @@ def scenario(ch, cfg):
                     continue
                 m, p, name = rt
                 other = "POST" if m == "GET" else "GET"
-                if p in routes[other]:
+                if p in cur["routes"][other]:
                     continue
                 res, _ = await request(build(other, p, gen_params()))
                 stats["probe_wrong_method"] += 1
@@ -346,7 +395,7 @@ def scenario(ch, cfg):
                     # "at most one invocation"); the requests after the next definition must use that definition.
                     await on_klong(lambda name=name: srv.klong(f"{name}::0"))
                     stats["probe_handler_rebound_to_non_function"] += 1
-                    mine = [(m, p) for m in ("GET", "POST") for p, n in routes[m].items() if n == name]
+                    mine = [(m, p) for m in ("GET", "POST") for p, n in cur["routes"][m].items() if n == name]
                     if mine:
                         m, p = mine[ch.draw(len(mine), "nfroute")]
                         res, _ = await request(build(m, p, gen_params()))
@@ -404,7 +453,7 @@ def scenario(ch, cfg):
                 params = gen_params() or {"a": "1"}
                 raw = build(m, p, params)
                 cut = 1 + ch.draw(len(raw) - 1, "cut")
-                r, wr = await asyncio.open_connection("127.0.0.1", PORT)
+                r, wr = await asyncio.open_connection("127.0.0.1", cur["port"])
                 wr.write(raw[:cut])
                 await asyncio.sleep(0.01 * ch.draw(3, "linger"))
                 if ch.draw(2, "abort"):
@@ -418,12 +467,34 @@ def scenario(ch, cfg):
                 log.append(f"disconnect {m} {p} at {cut}/{len(raw)}")
         if do_webc:
             stats["probe_webc"] += 1
-            rcode = await on_klong(lambda: srv.klong(".webc(wh)"))
-            log.append(f".webc -> {rcode}")
-            if rcode != 1:
-                viol("C20:http:webc-returns-0-for-live-server", f".webc(wh) returned {rcode!r} for a running server")
+            closed_port, hname = (PORT2, "wh2") if two and ch.draw(2, "webc-which") else (PORT, "wh")
+            cur["port"], cur["routes"] = closed_port, tables[closed_port]
             try:
-                conn = await asyncio.open_connection("127.0.0.1", PORT)
+                rcode = await on_klong(lambda: srv.klong(f".webc({hname})"))
+            except Exception as e:   # noqa
+                # a .webc that raises is judged by what it leaves behind: the port must not answer any more
+                rcode = f"raised {type(e).__name__}"
+                stats["probe_webc_raised"] += 1
+            log.append(f".webc({hname}) -> {rcode}")
+            if not isinstance(rcode, str) and rcode != 1:
+                viol("C20:http:webc-returns-0-for-live-server", f".webc({hname}) returned {rcode!r} for a running server")
+            if two:
+                # the other server of the same process goes on serving its own table
+                other_port = PORT if closed_port == PORT2 else PORT2
+                cur["port"], cur["routes"] = other_port, tables[other_port]
+                rt = pick_route(want_raises=False)
+                if rt is not None:
+                    n1 = len(reclog)
+                    params = gen_params()
+                    try:
+                        res, _ = await request(build(rt[0], rt[1], params))
+                    except ConnectionError as e:
+                        res = ("refused", type(e).__name__)
+                    stats["probe_other_web_server_after_webc"] += 1
+                    check_good("after-webc-of-the-other-server", rt[0], rt[1], rt[2], params, res, reclog[n1:])
+                cur["port"], cur["routes"] = closed_port, tables[closed_port]
+            try:
+                conn = await asyncio.open_connection("127.0.0.1", closed_port)
                 rt = pick_route(want_raises=False)
                 answered = None
                 if rt is not None:
